@@ -3,4 +3,6 @@ CONSTANTS
   MaxOrder = 4
   MaxDim = 4
   MaxReq = 70
+  MaxTRReq = 4
 INVARIANT SpecOK
+INVARIANT TRSpecOK
